@@ -228,10 +228,10 @@ JudgeSigParse(e) ==
 \* message : in = [data]   out.ok = [digest]
 JudgeMessage(e) ==
   LET o == e.out
-      m == IF Has(e.in, "big") THEN Rep(e.in.big.rep, Hx(e.in.big.pat)[1]) ELSE Hx(e.in.data)
+      exp == IF Has(e.in, "big") THEN PersonalDigestRep(Hx(e.in.big.pat)[1], e.in.big.rep) ELSE PersonalDigest(Hx(e.in.data))
   IN  [cls |-> "accept",
        devs |-> CrashDevs(o) \cup
-         (IF IsOk(o) /\ Hx(o.ok.digest) = PersonalDigest(m) THEN {}
+         (IF IsOk(o) /\ Hx(o.ok.digest) = exp THEN {}
           ELSE {D({"C10"}, "personal_digest", IF IsOk(o) THEN o.ok.digest ELSE "no digest")})]
 
 \* typeddata : in = [doc]   out.ok = [domsep, msghash, digest]
@@ -381,14 +381,15 @@ JudgeNew(e) ==
       ixOk  == c.vindex = "" \/ (SmallNat(ixCs) \/ (AllDigit(ixCs) /\ Len(ixCs) <= 10 /\ (Len(ixCs) = 1 \/ ixCs[1] # 48)
                                                      /\ BnLt(BnFromDec(DecVals(ixCs)), Two31)))
       \* spellings / combinations this specification leaves open
-      open  == ~(c.length = "" \/ SmallNat(lenCs)) \/ ~(c.threads = "" \/ SmallNat(thrCs)) \/ pre.c = "open"
+      \* the length: a canonical decimal numeral of ANY size is a number (refused unless it is a supported count)
+      open  == ~(c.length = "" \/ CanonDec(lenCs)) \/ ~(c.threads = "" \/ SmallNat(thrCs)) \/ pre.c = "open"
                \/ path.c = "either" \/ (c.vindex # "" /\ ~AllDigit(ixCs))
       crashed == CliCrashed(o)
       bound == e.in.argv = NewArgv(c)
   IN
   IF open THEN [cls |-> "open", devs |-> CliCrashDevs(o)]
   ELSE
-  LET words == IF c.length = "" THEN 12 ELSE BnToNat(BnFromDec(DecVals(lenCs)))
+  LET words == IF c.length = "" THEN 12 ELSE IF Len(lenCs) <= 4 THEN BnToNat(BnFromDec(DecVals(lenCs))) ELSE 0
       cfg == [vanity |-> c.prefix # "", threads |-> IF c.threads = "" THEN 64 ELSE BnToNat(BnFromDec(DecVals(thrCs))),
               nibbles |-> pre.nibbles, vpassword |-> StrToCps(c.vpassword), words |-> words,
               comps |-> IF c.vpath # "" THEN path.comps
@@ -551,7 +552,9 @@ IsSlice(small, big) ==
   \E off \in 0..(Len(big) - Len(small)) : SubSeq(big, off + 1, off + Len(small)) = small
 JudgeMnRandom(e) ==
   LET o == e.out
-      wl == e.in.len
+      \* the requested length: a number, or a decimal numeral for lengths beyond TLC's integers (0 - 1: no valid count)
+      lcs == IF Has(e.in, "len_text") THEN StrToUtf8(e.in.len_text) ELSE <<>>
+      wl == IF Has(e.in, "len_text") THEN (IF CanonDec(lcs) /\ Len(lcs) <= 2 THEN NatOf(lcs) ELSE 0 - 1) ELSE e.in.len
       reqs == IF Has(o, "reqs") THEN o.reqs ELSE <<>>
       refused == \E k \in 1..Len(reqs) : reqs[k].rc # 0
       props == {"C12"}
@@ -559,7 +562,7 @@ JudgeMnRandom(e) ==
        devs |-> CrashDevs(o) \cup
          (IF IsOk(o) THEN
             LET p == ParsePhrase(StrToCps(o.ok.phrase)) IN
-            (IF ~(wl \in ValidCounts) THEN {D(props \cup {"C01"}, "generated_unsupported_length", ToString(wl))} ELSE {})
+            (IF ~(wl \in ValidCounts) THEN {D(props \cup {"C01"}, "generated_unsupported_length", IF Has(e.in, "len_text") THEN e.in.len_text ELSE ToString(e.in.len))} ELSE {})
             \cup (IF refused THEN {D(props, "phrase_after_entropy_failure", "")} ELSE {})
             \cup (IF p.c # "accept" THEN {D(props, "generated_phrase_not_valid", o.ok.phrase)}
                   ELSE (IF p.n # wl \/ o.ok.len # wl THEN {D(props, "generated_length_mismatch", ToString(p.n))} ELSE {})
@@ -579,6 +582,22 @@ JudgeMnRandom(e) ==
           ELSE {D(props, "crash_in_generation", "")})]
 
 -----------------------------------------------------------------------------
+\* seq : in = [steps = <<[op, in]>>]   out.ok = [steps = <<outcome of the step's operation>>]
+\* A HISTORY of library calls on one thread of one process.  Every operation is a function of its input: each step is
+\* judged exactly as if it had been made alone, whatever was computed before it.
+RECURSIVE JudgeEvent(_)
+JudgeSeq(e) ==
+  LET o == e.out
+      n == Len(e.in.steps)
+      shaped == IsOk(o) /\ Len(o.ok.steps) = n
+      js == [k \in 1..n |-> JudgeEvent([i |-> e.i, op |-> e.in.steps[k].op, in |-> e.in.steps[k].in, out |-> o.ok.steps[k]])]
+  IN  [cls |-> IF n = 0 THEN "skip" ELSE "accept",
+       devs |-> CrashDevs(o) \cup
+         (IF ~shaped THEN {}
+          \* (reason and operation of the step are kept, so that a known finding is recognised inside a history too)
+          ELSE UNION {{[props |-> d.props, reason |-> d.reason, op |-> e.in.steps[k].op,
+                        detail |-> "history step " \o ToString(k) \o ": " \o d.detail] : d \in js[k].devs} : k \in 1..n})]
+
 JudgeEvent(e) ==
   IF IsSkip(e.out) THEN [cls |-> "skip", devs |-> {}]
   ELSE CASE e.op = "tx.sign"   -> JudgeTxSign(e)
@@ -594,6 +613,7 @@ JudgeEvent(e) ==
          [] e.op = "key.sign"        -> JudgeKeySign(e)
          [] e.op = "key.sign.bulk"   -> JudgeKeySignBulk(e)
          [] e.op = "hdk.derive.seq"  -> JudgeDeriveSeq(e)
+         [] e.op = "seq"             -> JudgeSeq(e)
          [] e.op = "sig.parse"       -> JudgeSigParse(e)
          [] e.op = "message"         -> JudgeMessage(e)
          [] e.op = "typeddata"       -> JudgeTypedData(e)
@@ -619,7 +639,7 @@ Next ==
          j == JudgeEvent(e)
      IN  /\ Emit("cls", [i |-> e.i, op |-> e.op, cls |-> j.cls, ndev |-> Cardinality(j.devs)])
          /\ \A d \in j.devs :
-              Emit("dev", [i |-> e.i, op |-> e.op, props |-> d.props, reason |-> d.reason, detail |-> d.detail])
+              Emit("dev", [i |-> e.i, op |-> IF Has(d, "op") THEN d.op ELSE e.op, props |-> d.props, reason |-> d.reason, detail |-> d.detail])
   /\ l' = l + 1
   /\ store' = Remember(Rec[l])
 Spec == Init /\ [][Next]_<<l, store>>
